@@ -173,9 +173,50 @@ impl Prop for C03 {
     fn cases(&self, tier: &str, seed: u64) -> Vec<Case> { tamper_cases(tier, seed) }
     fn run(&self, c: &Case, m: &mut Model) -> Outcome { run_tamper(c, m, false) }
 }
+fn c04_cli_cases(tier: &str, seed: u64) -> Vec<Case> {
+    let mut rng = Rng::new(seed ^ 0xC04C);
+    let mut v = vec![];
+    for mode in ["key", "pass"] { for t in ["intact", "trailing-byte", "trailing-newline", "corrupt-chunk1", "corrupt-last", "truncated", "flag-cleared"] { for out in ["file", "stdout"] {
+        if tier != "thorough" && out == "stdout" && t != "trailing-byte" && t != "intact" { continue; }
+        v.push(case(&[("kind", "cli".into()), ("mode", mode.into()), ("t", t.into()), ("out", out.into()), ("seed", rng.next().to_string())]));
+    } } }
+    v
+}
+
+fn run_c04_cli(c: &Case, m: &mut Model) -> Outcome {
+    use crate::cli::*;
+    let mut o = Outcome::default();
+    let fx = fixtures();
+    let mut rng = Rng::new(get(c, "seed").parse().unwrap_or(0));
+    let keym = get(c, "mode") == "key"; let t = get(c, "t"); let to_file = get(c, "out") == "file";
+    let plain = crate::gen::payload(rng.next(), 65536 + 4000);
+    let pw = "pass123";
+    let mut f = if keym { imp::key_encrypt(&fx.alice.sk, &fx.alice.pk, &fx.bob.pk, None, None, &plain, &NOSCRIPT).out } else { imp::pass_encrypt(pw.as_bytes(), &rng.bytes(32), &plain, &NOSCRIPT).out };
+    let hdr = if keym { 132 } else { 36 };
+    match t { "trailing-byte" => f.push(0), "trailing-newline" => f.push(b'\n'), "corrupt-chunk1" => { f[hdr + 65536 + 32 + 50] ^= 2; } "corrupt-last" => { let l = f.len(); f[l - 3] ^= 2; } "truncated" => { let l = f.len(); f.truncate(l - 7); }
+        "flag-cleared" => { let at = hdr + 65536 + 32 + 8; f[at..at + 4].copy_from_slice(&[0, 0, 0, 0]); } _ => {} }
+    let world = World { files: vec![("in.bin".into(), f), ("kr.txt".into(), keyring(&[(&fx.alice, true), (&fx.bob, true)]).into_bytes())], env: vec![("KESTREL_PASSWORD".into(), if keym { fx.bob.pw.into() } else { pw.into() })], stdin: vec![] };
+    let mut args: Vec<String> = if keym { sv(&["decrypt", "in.bin", "-t", "bob", "-k", "kr.txt", "--env-pass"]) } else { sv(&["password", "decrypt", "in.bin", "--env-pass"]) };
+    if to_file { args.push("-o".into()); args.push("out.bin".into()); }
+    let obs = run_kestrel(&world, &args);
+    let mo = model_cli(m, &world, &args, &rng.bytes(32), &rng.bytes(32));
+    let delivered = if to_file { obs.file("out.bin").cloned().unwrap_or_default() } else { obs.stdout.clone() };
+    let mdel = if to_file { mo.file("out.bin").cloned().unwrap_or_default() } else { mo.stdout.clone() };
+    o.validated += 1;
+    o.impl_obs = format!("exit={:?} released={}B", obs.exit, delivered.len()); o.model_obs = format!("exit={} released={}B", mo.exit, mdel.len());
+    o.tags.push(format!("cli {} {} -> exit {:?}", get(c, "mode"), t, obs.exit)); o.nontrivial = Some(format!("cli/{}/{}/{}", get(c, "mode"), t, get(c, "out")));
+    let label = format!("kestrel {} on a {} file ({})", args.join(" "), t, get(c, "mode"));
+    if !plain.starts_with(&delivered) { o.oracle_fail = Some(("released-bytes-are-authentic-prefix".into(), format!("{}: released bytes are not a prefix of the plaintext", label))); }
+    else if delivered.len() % 65536 != 0 && delivered.len() != plain.len() { o.oracle_fail = Some(("whole-chunks".into(), format!("{}: {} bytes released", label, delivered.len()))); }
+    else if obs.exit == Some(0) && (t != "intact" || delivered != plain) { o.oracle_fail = Some(("success-only-after-final-chunk-and-end-of-stream".into(), format!("{}: the tool reported success (exit 0) with {} of {} bytes released", label, delivered.len(), plain.len()))); }
+    else if obs.exit != Some(0) && t == "intact" { o.oracle_fail = Some(("intact-file-succeeds".into(), format!("{}: exit {:?}", label, obs.exit))); }
+    else if Some(mo.exit) != obs.exit || mdel != delivered { o.disagreement = Some(format!("{}: impl exit {:?} {}B, model exit {} {}B", label, obs.exit, delivered.len(), mo.exit, mdel.len())); }
+    o
+}
+
 impl Prop for C04 {
     fn id(&self) -> &'static str { "C04" }
-    fn rule(&self) -> String { format!("{}; sink accepts 1..3 bytes per write so that every write call is logged with the source position; oracle: released bytes are a whole-chunk prefix of the authentic plaintext, no write of chunk i before record i is fully consumed, success only with complete output", RULE) }
-    fn cases(&self, tier: &str, seed: u64) -> Vec<Case> { tamper_cases(tier, seed ^ 4) }
-    fn run(&self, c: &Case, m: &mut Model) -> Outcome { run_tamper(c, m, true) }
+    fn rule(&self) -> String { format!("{}; sink accepts 1..3 bytes per write so that every write call is logged with the source position; oracle: released bytes are a whole-chunk prefix of the authentic plaintext, no write of chunk i before record i is fully consumed, success only with complete output; plus the real binary (both modes, -o and stdout) on intact, trailing-byte, corrupted, truncated and flag-cleared two-chunk files: exit 0 only with the complete plaintext released", RULE) }
+    fn cases(&self, tier: &str, seed: u64) -> Vec<Case> { let mut v = tamper_cases(tier, seed ^ 4); v.extend(c04_cli_cases(tier, seed)); v }
+    fn run(&self, c: &Case, m: &mut Model) -> Outcome { if get(c, "kind") == "cli" { run_c04_cli(c, m) } else { run_tamper(c, m, true) } }
 }
